@@ -296,3 +296,138 @@ TARGETS = {
     'T13s': {'file': 'sr/value_types.py', 'build': build_T13},
     'T13se': {'file': 'sr/enum.py', 'build': build_T13e},
 }
+
+
+# ======================================================================================================
+# T13k: which attributes every constructor writes and every accessor reads (keyword tables per class)
+# ======================================================================================================
+
+def _kw(name):
+    return bool(name) and name[0].isupper() and not name.isupper() or name in ('UID',)
+
+
+def _ctor_writes(cls_node):
+    """rows (path, always) in source order; path = 'Keyword' or 'ParentSequence/Keyword'"""
+    init = None
+    for n in cls_node.body:
+        if isinstance(n, ast.FunctionDef) and n.name == '__init__':
+            init = n
+    if init is None:
+        raise Unsupported(f'{cls_node.name}.__init__ not found')
+    body = strip_doc(init.body)
+    parent = {}          # local item variable -> sequence keyword it ends up in
+    for st in ast.walk(init):
+        if isinstance(st, ast.Assign) and len(st.targets) == 1 and isinstance(st.targets[0], ast.Attribute) \
+                and _norm(st.targets[0].value) == 'self' and _kw(st.targets[0].attr) \
+                and isinstance(st.value, ast.List) and len(st.value.elts) == 1 and isinstance(st.value.elts[0], ast.Name):
+            parent[st.value.elts[0].id] = st.targets[0].attr
+        if isinstance(st, ast.Expr) and isinstance(st.value, ast.Call) and isinstance(st.value.func, ast.Attribute) \
+                and st.value.func.attr == 'append' and isinstance(st.value.func.value, ast.Attribute) \
+                and _norm(st.value.func.value.value) == 'self' and len(st.value.args) == 1 and isinstance(st.value.args[0], ast.Name):
+            parent[st.value.args[0].id] = st.value.func.value.attr
+    rows = []
+
+    def targets_of(st):
+        tg = []
+        if isinstance(st, ast.Assign):
+            tg = st.targets
+        elif isinstance(st, ast.AnnAssign):
+            tg = [st.target]
+        out = []
+        for t in tg:
+            if isinstance(t, ast.Attribute) and isinstance(t.value, ast.Name) and _kw(t.attr):
+                if t.value.id == 'self':
+                    out.append(t.attr)
+                elif t.value.id in parent:
+                    out.append(parent[t.value.id] + '/' + t.attr)
+                else:
+                    raise Unsupported(f'{cls_node.name}.__init__: attribute {t.attr} written on {t.value.id}, which is stored nowhere')
+        return out
+
+    def walk(stmts, always):
+        for st in stmts:
+            for p in targets_of(st):
+                rows.append((p, always))
+            if isinstance(st, ast.If):
+                branches = [st.body]
+                cur = st
+                while cur.orelse and len(cur.orelse) == 1 and isinstance(cur.orelse[0], ast.If):
+                    cur = cur.orelse[0]
+                    branches.append(cur.body)
+                has_else = bool(cur.orelse)
+                if has_else:
+                    branches.append(cur.orelse)
+                sets = []
+                for b in branches:
+                    s = set()
+                    for x in b:
+                        for sub in ast.walk(x):
+                            s.update(targets_of(sub) if isinstance(sub, (ast.Assign, ast.AnnAssign)) else [])
+                    sets.append(s)
+                every = set.intersection(*sets) if (has_else or all(any(isinstance(y, ast.Raise) for y in ast.walk(ast.Module(body=b, type_ignores=[]))) for b in branches[-1:] if not has_else)) and sets else set()
+                if not has_else:
+                    every = set()
+                seen = set()
+                for b in branches:
+                    for x in b:
+                        for sub in ast.walk(x):
+                            if isinstance(sub, (ast.Assign, ast.AnnAssign)):
+                                for p in targets_of(sub):
+                                    if p not in seen:
+                                        seen.add(p)
+                                        rows.append((p, always and p in every))
+            elif isinstance(st, (ast.For, ast.While, ast.With, ast.Try)):
+                raise Unsupported(f'{cls_node.name}.__init__: compound statement {type(st).__name__} not handled')
+    walk(body, True)
+    # one row per path: always if any unconditional row
+    merged = {}
+    order = []
+    for p, a in rows:
+        if p not in merged:
+            order.append(p)
+            merged[p] = a
+        else:
+            merged[p] = merged[p] or a
+    return [(p, merged[p]) for p in order]
+
+
+def _accessor_reads(cls_node):
+    out = []
+    for n in cls_node.body:
+        if isinstance(n, ast.FunctionDef) and any(_norm(d) == 'property' for d in n.decorator_list):
+            keys = []
+            for sub in ast.walk(n):
+                k = None
+                if isinstance(sub, ast.Attribute) and _kw(sub.attr) and not (isinstance(sub.value, ast.Name) and sub.value.id[0].isupper()):
+                    k = sub.attr
+                if isinstance(sub, ast.Call) and _norm(sub.func) == 'hasattr' and len(sub.args) == 2 and isinstance(sub.args[1], ast.Constant):
+                    k = sub.args[1].value
+                if k and k not in keys:
+                    keys.append(k)
+            out.append((n.name, sorted(keys)))
+    return out
+
+
+def build_T13k(tree):
+    top, nested, reads = [], [], []
+    for node in tree.body:
+        if isinstance(node, ast.ClassDef) and node.name.endswith('ContentItem'):
+            for prop, keys in _accessor_reads(node):
+                reads.append(f'({_s(node.name)}, {_s(prop)}, [' + ', '.join(_s(k) for k in keys) + '])')
+            for p, a in _ctor_writes(node):
+                if '/' in p:
+                    par, kw = p.split('/')
+                    nested.append(f'({_s(node.name)}, {_s(par)}, {_s(kw)}, {"true" if a else "false"})')
+                else:
+                    top.append(f'({_s(node.name)}, {_s(p)}, {"true" if a else "false"})')
+    sha = hashlib.sha256(';'.join(top + nested + reads).encode()).hexdigest()
+    out = [lean_table('srCtorWritesTop', 'List (String × String × Bool)', top,
+                      doc='(class, keyword, written on every path through `__init__`): attributes a constructor writes on the item itself'),
+           lean_table('srCtorWritesNested', 'List (String × String × String × Bool)', nested,
+                      doc='(class, sequence keyword, keyword, always): attributes written on the single item of a sequence attribute'),
+           lean_table('srAccessorReads', 'List (String × String × List String)', reads,
+                      doc='(class, property, attribute keywords the property reads)')]
+    return '\n\n'.join(out), sha
+
+
+TARGETS['T13k'] = {'file': 'sr/value_types.py', 'build': build_T13k}
